@@ -93,10 +93,19 @@ def gen_engine_case(rng):
         lines.insert(i, f"{cm} {pre} ignore-file{rules_txt(True)}")
         if i < 10:
             suppress_scope = set(range(1, len(lines) + 1))
+    odd = False
+    if rng.random() < 0.2:
+        # characters that only str.splitlines() takes for line ends (form feed, vertical tab, FS, NEL, LINE SEPARATOR) inside
+        # ordinary code lines: line numbers - and with them the scope of every directive - are what LF alone says they are
+        odd = True
+        for _ in range(rng.randint(1, 3)):
+            i = rng.randrange(len(lines))
+            if "ignore" not in lines[i]:
+                lines[i] += f"  {cm} page" + rng.choice(["\x0c", "\x0b", "\x1c", "\x85", "\u2028"]) + "break"
     # queries: every code line, for the planted rule
     queries = [{"rule": rule, "line": ln} for ln in range(1, len(lines) + 1) if not lines[ln - 1].lstrip().startswith(("#", "//"))]
     spec = [bool(names_rule and q["line"] in suppress_scope) for q in queries]
-    return {"lines": lines, "queries": queries, "spec": spec, "kind": k, "style": cm, "named": named, "prefix": pre}
+    return {"lines": lines, "queries": queries, "spec": spec, "kind": k, "style": cm, "named": named, "prefix": pre, "odd_line_ends": odd}
 
 
 def engine_impl(args):
@@ -237,6 +246,7 @@ def run(tier: str, seed: int, st: core.ProofStatus) -> core.Result:
         res.bump("A_kind", c["kind"])
         res.bump("A_named", c["named"])
         res.bump("A_style", c["style"])
+        res.bump("A_odd_line_end_characters", bool(c.get("odd_line_ends")))
         case = {"level": "engine", "lines": c["lines"], "rule": c["queries"][0]["rule"] if c["queries"] else None, "kind": c["kind"]}
         if isinstance(im, dict):
             res.disagreements.append(core.Disagreement(case=case, impl=im, model=None, spec=None, property_fails=True, note=im["error"]))
